@@ -96,6 +96,7 @@ type incarnation struct {
 	curPre  specalloc.Holdings
 	lapsed        map[string]bool
 	droppedDelete map[string]bool
+	poolHandlerCalls int
 	gateOpened    bool // the initial-load gate of this incarnation has been open at some point
 }
 
@@ -114,6 +115,7 @@ type world struct {
 	known []runner.Violation
 	halt  bool // a listed finding manifested: stop judging this run
 
+	noInterleave bool // an oracle is driving the reconcilers itself: nothing else may happen meanwhile
 	opp         int // crash opportunities passed so far
 	opsLeft     int
 	settling    bool
@@ -472,7 +474,7 @@ func (w *world) workerStep(inc *incarnation, wk *worker) {
 // interleave lets other workers and the informer make progress at a point where the running
 // worker is about to touch shared state (cache read or Listener lock).
 func (w *world) interleave(inc *incarnation) {
-	if !w.k.interleave || inc != w.inc || !inc.started || inc.depth >= 3 {
+	if !w.k.interleave || inc != w.inc || !inc.started || inc.depth >= 3 || w.noInterleave {
 		return
 	}
 	for {
@@ -564,6 +566,7 @@ func (w *world) poolHandler(inc *incarnation, l log.Logger, pools *config.Pools)
 		panic(fmt.Sprintf("specalloc cannot parse an accepted configuration: %v", err))
 	}
 	w.sched.add("handler:pools")
+	inc.poolHandlerCalls++
 	res := inc.listener.PoolHandler(l, pools)
 	inc.cfgInForce = cfg
 	inc.cfgRaw = describePools(inc.listedPools)
